@@ -293,7 +293,8 @@ class Interp:
             env[a.kwarg.arg] = extra
         defaults = list(a.defaults)
         dparams = params[len(params) - len(defaults):] if defaults else []
-        menv = {'__unit__': unit, '__closure__': None, '__module__': unit.module}
+        # defaults belong to the defining scope (for a lambda / nested function: the enclosing activation)
+        menv = {'__unit__': unit, '__closure__': closure, '__module__': unit.module}
         for pname, d in zip(dparams, defaults):
             if pname not in env:
                 env[pname] = self.eval(d, menv)
@@ -350,6 +351,14 @@ class Interp:
                 for m_ in self.enum_members(ref):
                     if args and (m_ is args[0] or (not isinstance(args[0], AObj) and m_.attrs['value'] == args[0])):
                         return m_
+                raise ARaise(f'ValueError ({args[0]!r} is not a valid {ref.name})')
+            if self._enum_like(ref) and len(args) == 1 and not kwargs:
+                # Enum(value) while members are represented by their values: the value itself, or ValueError
+                vals = self._to_list(c)
+                if args[0] is TOP:
+                    return TOP
+                if args[0] in vals:
+                    return args[0]
                 raise ARaise(f'ValueError ({args[0]!r} is not a valid {ref.name})')
             obj = AObj(ref, {})
             init = self.p.lookup_method(ref, '__init__')
@@ -414,6 +423,9 @@ class Interp:
             return list(range(*args))
         return TOP
 
+    def _enum_like(self, ci) -> bool:
+        return isinstance(ci, ClassInfo) and any(b.split('.')[-1] in ('Enum', 'IntEnum', 'StrEnum', 'Flag') for b in self.p.ext_bases(ci))
+
     def _is_enum(self, ci) -> bool:
         return self.enum_objects and isinstance(ci, ClassInfo) and any(b.split('.')[-1] in ('Enum', 'IntEnum', 'StrEnum', 'Flag')
                                                                        for b in self.p.ext_bases(ci))
@@ -441,6 +453,10 @@ class Interp:
             return list(v.keys())
         if isinstance(v, AClass) and self._is_enum(v.ref):
             return list(self.enum_members(v.ref))
+        if isinstance(v, AClass) and isinstance(v.ref, ClassInfo) and self._enum_like(v.ref):
+            # members are represented by their values: iterating the class yields the values in declaration order
+            return [self.eval(d, {'__module__': v.ref.module, '__unit__': None, '__closure__': None})
+                    for n_, (a_, d) in v.ref.fields.items() if d is not None and not n_.startswith('_')]
         if isinstance(v, AObj) and 'data' in v.attrs:
             return list(v.attrs['data'].keys())
         if isinstance(v, AObj) and 'nodes' in v.attrs and isinstance(v.attrs['nodes'], (dict, list, tuple, set)):
@@ -639,6 +655,23 @@ class Interp:
             if last == 'clear':
                 recv.clear()
                 return None
+        if isinstance(recv, (frozenset, tuple)):
+            # immutable containers: the read-only methods
+            if isinstance(recv, frozenset) and last in ('intersection', 'union', 'difference', 'symmetric_difference') and args:
+                res = set(recv)
+                for a_ in args:
+                    res = getattr(res, last)(set(self._to_list(a_)))
+                return frozenset(res)
+            if isinstance(recv, frozenset) and last in ('issubset', 'issuperset', 'isdisjoint') and args:
+                return getattr(recv, last)(set(self._to_list(args[0])))
+            if last == 'copy':
+                return recv
+            if last in ('count', 'index') and isinstance(recv, tuple) and args:
+                if last == 'index' and args[0] not in recv:
+                    raise ARaise('ValueError')
+                return getattr(recv, last)(args[0])
+            if last == '__contains__':
+                return args[0] in recv
         if isinstance(recv, set):
             if last == 'add':
                 recv.add(args[0])
@@ -711,10 +744,29 @@ class Interp:
     _EXC_PARENTS = {'KeyError': ('LookupError',), 'IndexError': ('LookupError',), 'AttributeError': (), 'TypeError': (),
                     'ValueError': (), 'StopIteration': (), 'RuntimeError': ()}
 
-    def _handler_matches(self, h: ast.ExceptHandler, what: str) -> bool:
+    def _handler_matches(self, h: ast.ExceptHandler, what: str, env: Optional[dict] = None) -> bool:
         if h.type is None:
             return True
-        names = [(dotted(t) or '').split('.')[-1] for t in (h.type.elts if isinstance(h.type, ast.Tuple) else [h.type])]
+        names = []
+        for t in (h.type.elts if isinstance(h.type, ast.Tuple) else [h.type]):
+            nm = (dotted(t) or '').split('.')[-1]
+            import builtins
+            if env is not None and isinstance(t, ast.Name) and not isinstance(getattr(builtins, nm, None), type):
+                # a name that is not a built-in exception class: a constant naming the classes, an imported class
+                try:
+                    v = self.eval(t, env)
+                except AnalysisError:
+                    v = None
+                vals = list(v) if isinstance(v, (tuple, list)) else [v]
+                got = []
+                for x in vals:
+                    if isinstance(x, AClass):
+                        got.append(x.ref.name if isinstance(x.ref, ClassInfo) else x.ref[1].split('.')[-1])
+                    elif isinstance(x, AExt):
+                        got.append(x.name.split('.')[-1])
+                names.extend(got or [nm])
+            else:
+                names.append(nm)
         for n in names:
             if n == 'BaseException':
                 return True
@@ -736,7 +788,7 @@ class Interp:
                 self.exec_block(st.body, env)
             except ARaise as ex:
                 for h in st.handlers:
-                    if self._handler_matches(h, ex.what):
+                    if self._handler_matches(h, ex.what, env):
                         if ex.obj is None:
                             ex.obj = AObj(('ext', 'builtins.Exception'), {'args': (), '__what__': ex.what}, tag=f'caught:{ex.what[:40]}')
                         if h.name:
@@ -1063,7 +1115,7 @@ class Interp:
                 if res[0] == 'module':
                     return AExt(res[1])
             return AExt(f'{obj.name}.{attr}', recv=obj.recv)
-        if isinstance(obj, (dict, set, list)):
+        if isinstance(obj, (dict, set, list, frozenset, tuple)):
             return AExt(f'builtins.{type(obj).__name__}.{attr}', recv=obj)
         if isinstance(obj, str) and attr in _STR_METHODS:
             return AExt(f'builtins.str.{attr}', recv=obj)
@@ -1084,6 +1136,12 @@ class Interp:
         if isinstance(e, ast.Name):
             return self.lookup(e.id, env)
         if isinstance(e, ast.Attribute):
+            if e.attr in ('value', 'name') and isinstance(e.value, ast.Attribute) and not self.enum_objects:
+                # <EnumClass>.<MEMBER>.value / .name while members are represented by their values
+                base = self.eval(e.value.value, env)
+                if isinstance(base, AClass) and isinstance(base.ref, ClassInfo) and e.value.attr in base.ref.fields \
+                        and any(b_.split('.')[-1] in ('Enum', 'IntEnum', 'StrEnum', 'Flag') for b_ in self.p.ext_bases(base.ref)):
+                    return e.value.attr if e.attr == 'name' else self.getattr_(base, e.value.attr, env, e.value)
             return self.getattr_(self.eval(e.value, env), e.attr, env, e)
         if isinstance(e, ast.Call):
             if isinstance(e.func, ast.Name) and e.func.id == 'super' and not e.args:
